@@ -107,9 +107,11 @@ func check(c *Ctx, r *Report) error {
 	h.strata(TierN(c.Tier, 120, 2000, 400))
 	h.seamStrata(TierN(c.Tier, 60, 1000, 240)) // exact-seam points of the n-ary combinators (seam.go)
 	h.flatStrata(TierN(c.Tier, 1, 12, 4))      // operands with flat / point boxes under every box-building combinator, pointwise-minimum reference over the leaves (flat.go)
+	h.foldStrata(TierN(c.Tier, 160, 3000, 600)) // arrays / rotate-unions / rotate-copies against the fold over ALL copies: blends wider than the pitch, 1..20 copies per axis, stretched operands, far points (fold.go)
+	h.histStrata(TierN(c.Tier, 60, 1200, 240))  // Union2D / Union3D built from a caller's slice that the caller goes on writing to (hist.go)
 
 	r.Coverage["node_oracles"] = h.hist
-	r.Rule = "correspondence: generated arguments for every matrix constructor / Mul / Inverse / Determinant / MulPosition of M22, M33, M44 (rotation axes incl. near-degenerate and huge, angles at and around multiples of pi/2, mirrors, products of rigid and non-rigid factors, nearly singular matrices; look-alike matrices: determinant exactly / nearly +-1 without being orthogonal (unit-product scalings, shears, unimodular integer matrices), orthogonal columns of different length, rotation plus tiny shear, nearly identity / diagonal / symmetric, bottom row slightly off (0,0,0,1), alone and composed with rotations and translations), RoundMin/ChamferMin/PolyMin/PolyMax (radius from 1e-6 to 100x the operands), SawTooth, the four extrusion maps, CacheSDF2 histories with repeats / -0 / NaN, VoxelSDF3 at every kind of position; the Coq model at primitive floats must agree within 1e-12 relative (bit-exact agreement counted separately). direct oracles: every internal node of random expression trees (depth <= 4, 35 combinators, parameters recovered from the Coq term the generator emitted in lock step) and adversarial parameter strata: parent Evaluate vs the named operation on the children's Evaluate at 6 points per node; exact where the operation is exact in floating point (min, max, negation, offset, elongate, array), 1e-9 relative otherwise. look-alike matrices additionally against exact rational arithmetic, independent of the implementation's Inverse: Inverse / Determinant / Mul / MulPosition within 64 ulp of the running error bound of the cofactor formula, Transform2D/3D(s, M).Evaluate(p) = s.Evaluate(M^-1 p) and RotateUnion2D/3D with a non-orthogonal step = minimum over the operand at step^-i p with the inverse (powers) taken in the rationals. exact seams: every union / intersection / difference / array node is additionally evaluated at points on an edge (face) of one operand's bounding box inside another operand's box and at exact zeros of an operand found by bisection from a point strictly inside another operand; operand sets on a dyadic grid (boxes, rounded boxes, discs, lines, offsets, exact quarter turns / mirrors, inner unions; boxes / spheres / cylinders in 3D) in every operand order on the full arrangement grid of their box edges, centres and midpoints (plain minimum: bit-exact minimum of the operand values; PolyMin: blend bounds). non-trivial = a node with at least one operand that is itself a combinator, or a blend / matrix case off the trivial strata; distinct by tree description / argument tuple."
+	r.Rule = "correspondence: generated arguments for every matrix constructor / Mul / Inverse / Determinant / MulPosition of M22, M33, M44 (rotation axes incl. near-degenerate and huge, angles at and around multiples of pi/2, mirrors, products of rigid and non-rigid factors, nearly singular matrices; look-alike matrices: determinant exactly / nearly +-1 without being orthogonal (unit-product scalings, shears, unimodular integer matrices), orthogonal columns of different length, rotation plus tiny shear, nearly identity / diagonal / symmetric, bottom row slightly off (0,0,0,1), alone and composed with rotations and translations), RoundMin/ChamferMin/PolyMin/PolyMax (radius from 1e-6 to 100x the operands), SawTooth, the four extrusion maps, CacheSDF2 histories with repeats / -0 / NaN, VoxelSDF3 at every kind of position; the Coq model at primitive floats must agree within 1e-12 relative (bit-exact agreement counted separately). direct oracles: every internal node of random expression trees (depth <= 4, 35 combinators, parameters recovered from the Coq term the generator emitted in lock step) and adversarial parameter strata: parent Evaluate vs the named operation on the children's Evaluate at 6 points per node; exact where the operation is exact in floating point (min, max, negation, offset, elongate, array), 1e-9 relative otherwise. look-alike matrices additionally against exact rational arithmetic, independent of the implementation's Inverse: Inverse / Determinant / Mul / MulPosition within 64 ulp of the running error bound of the cofactor formula, Transform2D/3D(s, M).Evaluate(p) = s.Evaluate(M^-1 p) and RotateUnion2D/3D with a non-orthogonal step = minimum over the operand at step^-i p with the inverse (powers) taken in the rationals. exact seams: every union / intersection / difference / array node is additionally evaluated at points on an edge (face) of one operand's bounding box inside another operand's box and at exact zeros of an operand found by bisection from a point strictly inside another operand; operand sets on a dyadic grid (boxes, rounded boxes, discs, lines, offsets, exact quarter turns / mirrors, inner unions; boxes / spheres / cylinders in 3D) in every operand order on the full arrangement grid of their box edges, centres and midpoints (plain minimum: bit-exact minimum of the operand values; PolyMin: blend bounds). non-trivial = a node with at least one operand that is itself a combinator, or a blend / matrix case off the trivial strata; distinct by tree description / argument tuple. fold stratum: Array2D/3D, RotateUnion2D/3D (default minimum and SetMin with PolyMin / RoundMin / ChamferMin and two blends defined in the harness, k = 0.1, 1, 3, 10 x the pitch; 1..20 copies per axis; overlapping, touching, disjoint, negative and zero steps; exact, stretched-and-rotated and random operands) and RotateCopy2D/3D against the fold over ALL copies computed in the harness (plain minimum bit for bit, blends 1e-9), at points in the box, at and between copies and up to 10 box diagonals outside. history stratum: Union2D/3D(parts...) built from a caller-owned slice (nil entries, spare capacity), then overwrite / reuse / append / zero / fill-nil / rebuild on that slice: the first union keeps its values bit for bit and is the fold over the operands it was built from, the caller's slice is left untouched, a second union is the fold over its own operands."
 	r.Trusted = append(r.Trusted,
 		"hand model coq/Sdf/Shape.v tied to the Go code by differential execution (cmd/c01, same tree generator); matrix code translated from the Go AST by harness/exprgen on every run",
 		"Gallina port of Go math (coq/Num/GoMath.v)",
